@@ -102,11 +102,14 @@ class ClipFam(Family):
     def corpus(self):
         base = {"rx": 1, "dtype": F32, "origin": "init", "extra": False, "infer": True, "old": False}
         if self.name == "clipclip":
-            return [dict(base, fam="clipclip", a="c0", b="c1", c="c5", d="c10"),   # D2 witness
+            return [dict(base, fam="clipclip", a="c0", b="c1", c="c5", d="c10"),   # D2 witness (fixed: regression case)
+                    dict(base, fam="clipclip", a="c-3", b="c-1", c="c2", d="-"),
+                    dict(base, fam="clipclip", a="-", b="c1", c="c5", d="c3"),
                     dict(base, fam="clipclip", a="c0", b="c1", c="c-1", d="c0", old=True),  # N2
                     dict(base, fam="clipclip", a="c0", b="c1", c="c-1", d="c5", infer=False)]
         if self.name == "reluclip":
-            return [dict(base, fam="reluclip", a="c-5", b="c-1"),                  # D1 witness
+            return [dict(base, fam="reluclip", a="c-5", b="c-1"),                  # D1 witness (fixed: regression case)
+                    dict(base, fam="reluclip", a="-", b="c-2"),
                     dict(base, fam="reluclip", a="c-1", b="c1", old=True)]
         if self.name == "cliprelu":
             return [dict(base, fam="cliprelu", a="c-5", b="c-1"), dict(base, fam="cliprelu", a="-", b="c3")]
@@ -199,14 +202,8 @@ class ClipFam(Family):
             return None
         if c["old"]:
             return "C05-N2"
-        k = {x: parse_bound(c[x]) for x in "abcd" if x in c}
-        if self.name == "clipclip":
-            b, cc, d = k["b"], k["c"], k["d"]
-            if b[0] == "c" and cc[0] == "c" and b[1] < cc[1] and (d[0] == "-" or (d[0] == "c" and b[1] < d[1])):
-                return "D2"
-        if self.name == "reluclip":
-            if k["b"][0] == "c" and k["b"][1] < 0:
-                return "D1"
+        # D1 (Relu∘Clip with b < 0) and D2 (Clip∘Clip with b < c, b < d) are fixed in /repo (979daa2, b85b7db):
+        # their regions are generated and judged like every other case; the witnesses stay in the corpus.
         return None
 
 
@@ -230,8 +227,8 @@ class MinMaxFam(Family):
     def gen(self, rng):
         kind = rng.choice(["minMin", "maxMax", "maxMin", "minMax"])
         sc = kind in ("maxMin", "minMax")
-        n1 = rng.choice([1, 1, 1, 2, 3]) if rng.random() > 0.03 else 0
-        n2 = rng.choice([1, 1, 1, 2]) if rng.random() > 0.03 else 0
+        n1 = rng.choice([1, 1, 2, 2, 3]) if rng.random() > 0.03 else 0      # variadic Min/Max: several constants per node
+        n2 = rng.choice([1, 1, 2, 2, 3]) if rng.random() > 0.03 else 0
         return {"fam": "minmax", "kind": kind, "rx": rng.choice([0, 1, 1, 2, 3]), "dtype": rng.choice([F32, F32, "int32"]),
                 "first": [self.gen_const(rng, sc) for _ in range(n1)], "second": [self.gen_const(rng, sc) for _ in range(n2)],
                 "origin": rng.choice(["init", "cnode"]), "extra": rng.random() < 0.06, "old": rng.random() < 0.04}
@@ -514,10 +511,10 @@ class PermFam(Family):
     rule_keys = ("no_op_transpose_rule", "transpose_transpose_rule")
 
     def gen(self, rng):
-        r = rng.choice([1, 2, 2, 3, 3, 4])
+        r = rng.choice([1, 2, 3, 3, 3, 4, 4])      # rank >= 3: permutation pairs that do not commute
         def perm():
             p = list(range(r))
-            if rng.random() < 0.6:
+            if rng.random() < 0.75:
                 rng.shuffle(p)
             return p
         if rng.random() < 0.4:
@@ -828,9 +825,7 @@ class ReshapeFam(Family):
     def finding(self, c):
         if c["kind"] == "flatten" and c["x"] is not None and any(d == 0 for d in c["x"]):
             return "D6"
-        if c["kind"] == "mat" and c["out"] is not None:
-            if any(d == 0 for d in c["out"]) and any(not isinstance(d, int) for d in c["out"]):
-                return "D16c2"
+        # D16c2 (materialize: -1 beside a static 0) is fixed in /repo (49df852): the rule now refuses; witness in the corpus
         return None
 
 
@@ -986,7 +981,8 @@ class GemmFam(Family):
         ta, tb = rng.random() < 0.3, rng.random() < 0.3
         cs = rng.choice([[m, n], [n], [1, n], [m, 1], [], [1], [1, 1], [2, m, n], [3, n] if m == 1 else [m, n], [1, 1, n]])
         return {"fam": "gemm", "m": m, "k": k, "n": n, "ta": ta, "tb": tb, "c": cs, "ranka": rng.choice([2, 2, 2, 2, 3, 1, None]),
-                "rankb": rng.choice([2, 2, 2, 2, 3, None]), "extra": rng.random() < 0.06, "cconst": rng.random() < 0.3}
+                "rankb": rng.choice([2, 2, 2, 2, 3, None]), "extra": rng.random() < 0.06, "cconst": rng.random() < 0.3,
+                "cknown": rng.random() > 0.06}
 
     def corpus(self):
         b = {"fam": "gemm", "ta": False, "tb": False, "ranka": 2, "rankb": 2, "extra": False, "cconst": False}
@@ -1019,7 +1015,7 @@ class GemmFam(Family):
         if c["cconst"]:
             hst.const("c", np.arange(int(np.prod(c["c"])) if c["c"] else 1, dtype=F32).reshape(c["c"]), "init")
         else:
-            hst.inp("c", F32, c["c"])
+            hst.inp("c", F32, c["c"], decl_shape=c["c"] if c.get("cknown", True) else None)
         hst.node("Add", ["t", "c"], ["y"])
         hst.out("y", F32, None)
         if c["extra"]:
@@ -1042,20 +1038,14 @@ class GemmFam(Family):
         # an untyped/unshaped Transpose output never has rank 2 known unless its input has (no inference here):
         # the rule set tries the transposed patterns first; their `input_a` is the Transpose *input*.
         return (f"gemm ra={'-' if ra is None else ra} rb={'-' if rb is None else rb} ta={int(c['ta'])} tb={int(c['tb'])} "
-                f"m={c['m']} n={c['n']} c={ints(c['c'])} extra={int(c['extra'])}")
+                f"m={c['m']} n={c['n']} c={ints(c['c']) if (c.get('cknown', True) or c['cconst']) else '-'} extra={int(c['extra'])}")
 
     def observe(self, c, after):
         n = find_node(after, "Gemm")
         return f"fire transA={attr_of(n, 'transA', 0)} transB={attr_of(n, 'transB', 0)}"
 
     def finding(self, c):
-        import numpy as _np
-        try:
-            bs = list(_np.broadcast_shapes(tuple(c["c"]), (c["m"], c["n"])))
-        except ValueError:
-            return None
-        if bs != [c["m"], c["n"]]:
-            return "D16b"
+        # D16b (C not unidirectionally broadcastable to (M,N)) is fixed in /repo (be37f51): the rule refuses; witnesses in the corpus
         return None
 
 
@@ -1084,7 +1074,7 @@ class PadFam(Family):
                 "cv": rng.choice([None, None, 0, 0, 1, "dyn"]), "pads_dyn": rng.random() < 0.06,
                 "autopad": rng.choice(["NOTSET", "NOTSET", "NOTSET", None, "VALID", "SAME_UPPER"]),
                 "cpads": rng.choice([None, None, [rng.choice([0, 1]) for _ in range(2 * nsp)]]),
-                "zp": rng.choice([None, None, 0, 5]) if integer else None, "shape_known": rng.random() > 0.06,
+                "zp": rng.choice([None, None, 0, 0, 5, "dyn"]) if integer else None, "shape_known": rng.random() > 0.06,
                 "strides": rng.choice([1, 1, 2]), "dil": rng.choice([1, 1, 2]), "extra": rng.random() < 0.06}
 
     def corpus(self):
@@ -1121,7 +1111,9 @@ class PadFam(Family):
             attrs["pads"] = c["cpads"]
         if c["integer"]:
             cins = ["t", "w"]
-            if c["zp"] is not None:
+            if c["zp"] == "dyn":
+                cins.append(hst.const("zp", np.array(0, dtype="uint8"), "input"))
+            elif c["zp"] is not None:
                 cins.append(hst.const("zp", np.array(c["zp"], dtype="uint8"), "init"))
             hst.node("ConvInteger", cins, ["y"], **attrs)
             hst.out("y", "int32", None)
@@ -1142,15 +1134,14 @@ class PadFam(Family):
         cv = "-" if c["cv"] is None else "n" if c["cv"] == "dyn" else str(c["cv"])
         return (f"padconv rank={c['nsp'] + 2 if c['shape_known'] else '-'} mode={c['mode'] or '-'} "
                 f"pads={'n' if c['pads_dyn'] else ints(c['pads'])} cv={cv} axes={'-' if c['axes'] is None else ints(c['axes'])} "
-                f"autopad={c['autopad'] or 'NOTSET'} cpads={'-' if cpads is None else ints(cpads)} zp={int(bool(c['zp']))}")
+                f"autopad={c['autopad'] or 'NOTSET'} cpads={'-' if cpads is None else ints(cpads)} zp={'-' if c['zp'] is None else 'n' if c['zp'] == 'dyn' else c['zp']}")
 
     def observe(self, c, after):
         n = find_node(after, "ConvInteger" if c["integer"] else "Conv")
         return f"fire pads={ints(attr_of(n, 'pads'))}"
 
     def finding(self, c):
-        if c["integer"] and c["zp"]:
-            return "D16a"
+        # D16a (non-zero x_zero_point) is fixed in /repo (470d8b0): the rule refuses; witness in the corpus
         return None
 
 
@@ -1296,7 +1287,7 @@ class BatchNormFam(Family):
         op = rng.choice(["Conv", "ConvTranspose", "Gemm"])
         return {"fam": "bn", "op": op, "bias": rng.random() < 0.6, "group": rng.choice([1, 1, 2]) if op != "Gemm" else 1,
                 "transB": op == "Gemm" and rng.random() < 0.4, "alpha": rng.choice([1.0, 1.0, 2.0]), "beta": rng.choice([1.0, 1.0, 1.0, 0.5]),
-                "eps": rng.choice([None, 1e-5, 1e-3, 0.5]), "train": rng.random() < 0.05, "seed": rng.randint(0, 999),
+                "eps": rng.choice([None, 1e-5, 1e-3, 1e-2, 0.5, 0.5]), "train": rng.random() < 0.05, "seed": rng.randint(0, 999),
                 "nonconst": rng.choice([None] * 8 + ["w", "gamma", "mean", "var", "b"]), "ginit": rng.random() < 0.06,
                 "shared": rng.random() < 0.07, "extra": rng.random() < 0.05}
 
